@@ -9,8 +9,9 @@ use std::sync::atomic::{AtomicBool, AtomicU64, AtomicUsize, Ordering};
 use vm_memory::GuestMemoryAtomic;
 use vmm_sys_util::epoll::{ControlOperation, Epoll, EpollEvent};
 
-// ------------------------------------------------------------------ recording epoll (A-EPOLL: level-triggered; closing the
-// last reference to a descriptor removes its registration)
+// ------------------------------------------------------------------ recording epoll (A-EPOLL: level-triggered). Closing the daemon's
+// descriptor does NOT remove the registration: the eventfd arrived over SCM_RIGHTS, the frontend still holds the open file
+// description, so the epoll entry survives the close and has to be removed explicitly.
 pub(crate) const NFD: usize = 4;                 // descriptors 200..204 are tracked
 pub(crate) static mut REG: [bool; NFD] = [false; NFD];
 pub(crate) static mut REG_DATA: [u64; NFD] = [0; NFD];
@@ -41,7 +42,6 @@ pub(crate) fn ledger_drop(fd: &mut std::os::fd::OwnedFd) {
     unsafe {
         let raw = std::os::fd::AsRawFd::as_raw_fd(fd);
         NCLOSED += 1; CLOSED_LAST = raw;
-        if raw >= 200 && raw < 200 + NFD as i32 { REG[(raw - 200) as usize] = false; }   // close removes the registration
     }
 }
 
@@ -142,9 +142,8 @@ fn check_reg_inv(h: &H) {
                 let k = (fd - 200) as usize;
                 assert!(REG[k] == want);                       // registered iff started and enabled
                 if want { assert!(REG_DATA[k] == 0 && REG_EP[k] == 40); }   // ... on the owning worker, with the ring's rank as event id
-                assert!(reg_count() == want as usize);         // and nothing else
             }
-            None => assert!(reg_count() == 0),
+            None => {}
         }
     }
 }
@@ -159,6 +158,7 @@ hstubs! { #[kani::unwind(4)] fn c11_set_vring_enable_step() {
     let r = h.set_vring_enable(0, en);
     assert!(r.is_ok());
     assert!(h.vrings[0].enabled() == en && h.vrings[0].ready() == ready && h.vrings[0].kick_fd().is_some() == has_kick);
+    if !has_kick { assert!(reg_count() == 0); }
     check_reg_inv(&h);
     core::mem::forget(h); core::mem::forget(kb);
 }}
@@ -186,6 +186,7 @@ hstubs! { #[kani::unwind(4)] fn c11_set_vring_call_step() {
     assert!(r.is_ok());
     assert!(h.vrings[0].enabled() == en && h.vrings[0].kick_fd().is_some() == has_kick);
     assert!(h.vrings[0].call_fd() == if with { Some(202) } else { None });
+    if !has_kick { assert!(reg_count() == 0); }
     check_reg_inv(&h);
     core::mem::forget(h); core::mem::forget(kb);
 }}
@@ -203,6 +204,7 @@ hstubs! { #[kani::unwind(4)] fn c11_c14_get_vring_base_step() {
     }
     // stopped: not ready, kick and call descriptors dropped, nothing registered any more
     assert!(!h.vrings[0].ready() && h.vrings[0].kick_fd().is_none() && h.vrings[0].call_fd().is_none() && h.vrings[0].enabled() == en);
+    assert!(reg_count() == 0);      // the stopped ring's kick descriptor left the epoll set (it was unregistered before being dropped)
     check_reg_inv(&h);
     core::mem::forget(h); core::mem::forget(kb);
 }}
@@ -214,6 +216,7 @@ hstubs! { #[kani::unwind(4)] fn c11_reset_device_step() {
     assert!(r.is_ok());
     assert!(!h.vrings[0].enabled() && h.vrings[0].ready() == ready && h.vrings[0].kick_fd().is_some() == has_kick);
     assert!(kb.reset_calls.load(Ordering::Relaxed) == 1);
+    if !has_kick { assert!(reg_count() == 0); }
     check_reg_inv(&h);
     core::mem::forget(h); core::mem::forget(kb);
 }}
@@ -238,6 +241,7 @@ hstubs! { #[kani::unwind(4)] fn c11_c14_set_features_step() {
         assert!(kb.acked_calls.load(Ordering::Relaxed) == 1 && kb.acked.load(Ordering::Relaxed) == f);        // exactly the accepted bits
     }
     assert!(h.vrings[0].ready() == ready && h.vrings[0].kick_fd().is_some() == has_kick);
+    if !has_kick { assert!(reg_count() == 0); }
     check_reg_inv(&h);
     core::mem::forget(h); core::mem::forget(kb);
 }}
